@@ -114,6 +114,7 @@ def case_strategy(draw, tier, shard=0, nshards=1):
         c["mol"]["basis"] = "sto-3g"
         c["walker_type"] = "uhf"
         c["dm_seed"] = draw(st.integers(0, 10**6))
+        c["basis_choice"] = draw(st.sampled_from(["mo", "rotated-integrals"]))
     else:
         c["lattice"] = {"n": draw(st.sampled_from([4, 6])), "U": draw(st.sampled_from([1.0, 4.0])), "ring": draw(st.booleans()), "nelec": None}
         c["lattice"]["nelec"] = draw(st.sampled_from([[2, 2], [3, 1], [2, 1]] if c["lattice"]["n"] == 4 else [[3, 3], [2, 2], [3, 2]]))
@@ -267,6 +268,9 @@ def body(ctx, case):
         basis_coeff = np.eye(int(case["lattice"]["n"]))
     elif m == "integrals-mol":
         basis_coeff = np.eye(integrals["h1"].shape[0])
+        if case["basis_choice"] == "rotated-integrals":
+            rng = np.random.default_rng(int(case["rot_seed"]))
+            basis_coeff, _ = np.linalg.qr(rng.normal(size=basis_coeff.shape))
     trial_opt = {"rhf": "rhf", "rhf-uhf-trial": "uhf", "df-rhf": "rhf", "rohf": "uhf", "uhf": "uhf", "ccsd": "cisd", "uccsd": "ucisd", "lattice": "uhf", "integrals-mol": "uhf"}[m]
     if m in ("rhf", "df-rhf") and case["walker_type"] == "uhf":
         trial_opt = "uhf"
@@ -313,6 +317,49 @@ def body(ctx, case):
     want_ne, want_ms = nel_corr, nelec[0] - nelec[1]
     if header[0] != want_ne or header[2] != want_ms or header[1] != norb_corr or header[3] != chol.shape[0]:
         ctx.fail(f"header:{m}:frozen={nfrozen}", case, f"header {header}, expected nelec {want_ne}, nmo {norb_corr}, ms {want_ms}")
+    # the written integrals themselves, element by element, against pyscf's in the same orbital basis. Both Cholesky routines stop when the
+    # largest diagonal residual is below the threshold; the residual is positive semi-definite, so every element of it is bounded by the
+    # threshold, and transforming from the basis the decomposition ran in to the written one multiplies that by at most (max_p |C_p|_1)^4.
+    if m != "df-rhf" and norb_corr <= 10:
+        from pyscf import ao2mo as _ao2mo
+
+        if basis_coeff is not None:
+            Cfull = np.asarray(basis_coeff)
+        else:
+            Cfull = mf.mo_coeff if np.ndim(mf.mo_coeff) == 2 else mf.mo_coeff[0]
+        Cact = np.asarray(Cfull)[:, nfrozen:]
+        cmax = max(1.0, float(np.max(np.sum(np.abs(Cact), axis=0))))
+        if integrals is not None:
+            eri_src = _ao2mo.restore(1, integrals["h2"], Cfull.shape[0])
+            eri_ref = np.einsum("pqrs,pi,qj,rk,sl->ijkl", eri_src, Cact, Cact, Cact, Cact, optimize=True)
+            h1_ref, h0_ref = Cact.T @ integrals["h1"] @ Cact, float(integrals["h0"])
+        else:
+            eri_ref = _ao2mo.restore(1, _ao2mo.kernel(mol, Cact), Cact.shape[1])
+            if nfrozen:
+                mc0 = mcscf.CASCI(mf, mol.nao - nfrozen, mol.nelectron - 2 * nfrozen)
+                mc0.verbose = 0
+                h1_ref, h0_ref = mc0.get_h1eff(mo_coeff=Cfull)
+                h0_ref = float(h0_ref)
+            else:
+                h1_ref, h0_ref = Cact.T @ mf.get_hcore() @ Cact, float(mol.energy_nuc())
+        eri_written = np.einsum("gij,gkl->ijkl", chol, chol)
+        tol_el = chol_cut * cmax**4 + 1e-8
+        d_eri = float(np.max(np.abs(eri_written - eri_ref)))
+        d_h1 = float(np.max(np.abs(h1 - h1_ref)))
+        d_h0 = abs(h0 - h0_ref)
+        ctx.count("integrals-compared-elementwise")
+        ctx.err(f"max |(pq|rs) written - pyscf| / tol [{m}]", d_eri / tol_el)
+        if not d_eri <= tol_el:
+            ctx.fail(f"integrals:two-body-elements:{m}:frozen={nfrozen}:basis={case['basis_choice']}", case, f"max |sum_g L_pq L_rs - (pq|rs)| = {d_eri:.3e} > {tol_el:.1e} (threshold {chol_cut:g})")
+        asym = float(np.max(np.abs(chol - chol.transpose(0, 2, 1))))
+        if not asym <= 1e-10 * max(1.0, float(np.max(np.abs(chol)))):
+            ctx.fail(f"integrals:cholesky-vectors-not-symmetric:{m}", case, f"max |L_pq - L_qp| = {asym:.3e}: the written two-body operator is not Hermitian")
+        tol_h1 = (4 * nfrozen * tol_el if nfrozen else 0.0) + 1e-9 * max(1.0, float(np.max(np.abs(h1_ref))))
+        if not d_h1 <= tol_h1:
+            ctx.fail(f"integrals:one-body-elements:{m}:frozen={nfrozen}:basis={case['basis_choice']}", case, f"max |h1 written - pyscf| = {d_h1:.3e} > {tol_h1:.1e}")
+        tol_h0 = (4 * nfrozen**2 * tol_el if nfrozen else 0.0) + 1e-9 * max(1.0, abs(h0_ref))
+        if not d_h0 <= tol_h0:
+            ctx.fail(f"integrals:constant:{m}:frozen={nfrozen}", case, f"|h0 written - pyscf| = {d_h0:.3e} > {tol_h0:.1e}")
     # exact ground state of the written Hamiltonian
     if norb_corr <= 8 and m != "df-rhf":
         na, nb = (want_ne + want_ms) // 2, (want_ne - want_ms) // 2
